@@ -337,6 +337,11 @@ func genInputs(kind string, seed int64, n int) []N {
 		add("func f(x) {\nreturn [x].map(f)\n}\nf(1)")
 		add("func f(x) {\nreturn try(func() { return f(x) })\n}\nf(1)")
 		add("func f(x) {\nreturn sorted([x, x], func(a, b) { f(a)\n return true })\n}\nf(1)")
+		// an if / switch whose condition is missing at a line end, wherever an expression may stand
+		for _, src := range []string{"print(1, if\n2)", "print(1, switch\n2)", "[1, 2, if\n3]", "x := 1\nreturn if", "f := func(a = if\n x {}",
+			"m := {\"k\": [1, switch\n2]}", "print(if\n1, 2)", "x := [if\n]"} {
+			add(src)
+		}
 		// writes into byte slices made from strings of every origin (a literal, a constant of the runtime such as a
 		// type name, a computed string, a map key, an error text): the string is never the storage written to
 		for _, origin := range []string{"type(1)", "type([])", "\"abc\"", "string(12)", "\"ab\" + \"cd\"", "keys({\"kk\": 1})[0]", "type(len)",
